@@ -14,7 +14,10 @@ Inductive c13case :=
 
 Definition check_c13 (c : c13case) : list nat :=
   match c with
-  | C13Step cc => (if agrees cc then [] else [1%nat]) ++ reasons_in [3; 4; 5; 6; 7; 8; 10]%nat cc
+  | C13Step cc => (if agrees cc then [] else [1%nat]) ++ reasons_in [3; 4; 5; 6; 7; 8; 10]%nat cc ++
+                  (* reason 11: the scenario could not be run to its end: a goroutine of the client waits for a lock for ever
+                     (self-deadlock under a peer-chosen envelope sequence): every later operation on that call hangs *)
+                  (match cc with CClientWedged _ _ _ => [11%nat] | _ => [] end)
   | C13Surplus results =>
       (* an answered call reports exactly the data addressed to it; an unanswered one never reports success *)
       (if forallb (fun r => match r with (own, got, ans) => if 0 <=? got then (ans =? 1) && (got =? own) else true end) results then [] else [5%nat]) ++
@@ -27,3 +30,6 @@ Fixpoint find_bad_from (i : nat) (cs : list c13case) : list (nat * list nat) :=
   | [] => []
   | c :: rest => match check_c13 c with [] => find_bad_from (S i) rest | rs => (i, rs) :: find_bad_from (S i) rest end
   end.
+
+Example wedged_is_bad : check_c13 (C13Step (CClientWedged [ANewStream false] [] [(0, 0)])) = [1%nat; 11%nat].
+Proof. vm_compute. reflexivity. Qed.
